@@ -13,11 +13,11 @@ var known = ev.Matcher[Case]{}
 
 const rule = "exhaustive: files of n<=5 statements (distinct ids, and an all-equal-ids variant) x progress k in 1..n-1 x " +
 	"every edit {identity, change i, insert at i (fresh id / copy of neighbour), delete i, swap i<j, truncate to L in 0..n} x " +
-	"cosmetic {none, comment lines, blank lines}, and for tail-only edits a second partial failure at every later index k2 followed by a third run; random: ids from a 3-element pool (duplicates), 1-3 stacked edits. " +
+	"cosmetic {none, comment lines, blank lines}, every edit also after a first attempt that ended like a killed process (progress recorded, no error text), and for tail-only edits a second partial failure at every later index k2 followed by a third run; random: ids from a 3-element pool (duplicates), 1-3 stacked edits. " +
 	"API tier = migrate.Executor on MemDir with recording driver/revisions; CLI tier = atlas migrate apply --tx-mode none on a SQLite file. " +
 	"non-trivial = the edited file differs from the original in statements or layout; distinct key = (old, k, new, cosmetic, tier)"
 
-func key(c Case) string { return fmt.Sprintf("%v|%d|%d|%v|%d|%v", c.Old, c.K, c.K2, c.New, c.Cosmetic, c.CLI) }
+func key(c Case) string { return fmt.Sprintf("%v|%d|%d|%v|%d|%v|%v", c.Old, c.K, c.K2, c.New, c.Cosmetic, c.CLI, c.Quiet) }
 
 func classify(col *ev.Collector, c Case) {
 	cls := "prefix-changed"
@@ -33,6 +33,9 @@ func classify(col *ev.Collector, c Case) {
 	}
 	col.Class(tier + "/" + cls)
 	col.Class("edit/" + c.Edit)
+	if c.Quiet {
+		col.Class(tier + "/first-attempt-left-no-error-text")
+	}
 	if fmt.Sprint(c.Old) != fmt.Sprint(c.New) || c.Cosmetic != 0 {
 		col.NonTrivial(key(c))
 	}
@@ -96,6 +99,10 @@ func enumerate(maxN int, f func(Case) bool) {
 							return
 						}
 					}
+					// the same edit after a first attempt that ended like a killed process (progress recorded, no error text)
+					if !f(Case{Old: old, K: k, New: e.ids, Edit: e.name, Quiet: true}) {
+						return
+					}
 					// a second partial failure during the resume (only meaningful when the applied prefix is unchanged)
 					for k2 := k + 1; k2 < len(e.ids); k2++ {
 						if !f(Case{Old: old, K: k, K2: k2, New: e.ids, Edit: e.name + "+second-failure"}) {
@@ -120,7 +127,7 @@ func genCase(t *rapid.T) Case {
 		cur = pick.ids
 		name += pick.name + "+"
 	}
-	c := Case{Old: old, K: k, New: cur, Cosmetic: rapid.IntRange(0, 2).Draw(t, "cosmetic"), Edit: "multi"}
+	c := Case{Old: old, K: k, New: cur, Cosmetic: rapid.IntRange(0, 2).Draw(t, "cosmetic"), Edit: "multi", Quiet: rapid.IntRange(0, 2).Draw(t, "quiet") == 0}
 	if len(cur) > k+1 && rapid.Bool().Draw(t, "second") {
 		c.K2 = rapid.IntRange(k+1, len(cur)-1).Draw(t, "k2")
 	}
